@@ -187,18 +187,18 @@ PROPS["C15"] = _std(
     "Exhaustive over structured adversarial alphabets for every untrusted-input entry point, on both build profiles.",
     "DESIGN.md section 4, C15",
     "exhaustive adversarial-alphabet enumeration under catch_unwind on release and checked builds",
-    lambda tier: [R("simd"), R("simd", "chk")] if tier == "quick" else
-                 [R("simd"), R("simd", "chk"), R("serial32"), R("serial32", "chk"), R("serial64", "chk"), R("fiat64", "chk"), R("fiat32", "chk"), R("avx512", "chk"), R("simd", "rel-legacy")],
+    lambda tier: [R("simd"), R("simd", "chk"), R("simd", dispatch="serial")] if tier == "quick" else
+                 [R("simd"), R("simd", "chk"), R("simd", dispatch="serial"), R("serial32"), R("serial32", "chk"), R("serial64", "chk"), R("fiat64", "chk"), R("fiat32", "chk"), R("avx512", "chk"), R("simd", "rel-legacy")],
 )
 
 PROPS["C17"] = _std(
     "exploration",
     "Field/PrimeField methods on the scalar alphabet (sqrt vs Euler criterion incl. constructed residues and non-residues, invert, sqrt_ratio, from_repr / from_repr_vartime around l, to_repr, bits), advertised constants against their defining relations (the model carries and checks the factorisation of l-1 to decide primitivity of the generator), "
-    "GroupEncoding of EdwardsPoint / SubgroupPoint / RistrettoPoint on the encoding alphabets, CofactorGroup on every a*B+T_j (into_subgroup <=> torsion-free, clear_cofactor = [8]P), SubgroupPoint arithmetic, Group::random with a scripted RNG. distinct_nontrivial = cases.",
+    "GroupEncoding of EdwardsPoint / SubgroupPoint / RistrettoPoint on the encoding alphabets, CofactorGroup on every a*B+T_j (into_subgroup <=> torsion-free, clear_cofactor = [8]P), SubgroupPoint's whole operator surface (every Add/Sub/Mul/Assign/Sum/select/ct_eq/zeroize impl, mixed with torsioned EdwardsPoints), Group::random with a scripted RNG. distinct_nontrivial = cases.",
     "Exhaustive over structured alphabets against Z/lZ and the Edwards/Ristretto models.",
     "DESIGN.md section 4, C17",
     "exhaustive alphabet enumeration against the reference model",
-    lambda tier: [R("simd")] if tier == "quick" else [R("simd"), R("simd", dispatch="serial"), R("serial32"), R("fiat32"), R("fiat64"), R("avx512")],
+    lambda tier: [R("simd"), R("serial32"), R("fiat64")] if tier == "quick" else [R("simd"), R("simd", dispatch="serial"), R("serial32"), R("serial64"), R("fiat32"), R("fiat64"), R("avx512"), R("avx512", dispatch="avx2")],
 )
 
 
